@@ -79,6 +79,16 @@ def gen_params(rng, cmd, n, data_values=None, hostile=False):
         if hostile:
             tt, ft = rng.choice([(10, -10), (1e-6, -1e-6), (-10, 10), (3, 2.999)])
         p["TrueThresholdZScore"], p["FalseThresholdZScore"] = tt, ft
+        if cmd == "CvtToFuzzyZScore" and not hostile:
+            # documented defaults (+1 / -1): omit one or both thresholds in a third of the cases
+            r = rng.random()
+            if r < 0.15:
+                del p["TrueThresholdZScore"]
+            elif r < 0.3:
+                del p["FalseThresholdZScore"]
+            elif r < 0.45:
+                p.pop("TrueThresholdZScore")
+                p.pop("FalseThresholdZScore")
         if cmd == "NormalizeZScore" and rng.random() < 0.6:
             s, e = sorted(distinct_nums(rng, 2))
             p["StartVal"], p["EndVal"] = s, e
